@@ -497,9 +497,15 @@ class LSMTree(Entity):
         if self._memtable.size == 0:
             return
 
-        # Move active memtable to immutable list
+        # Keep a frozen copy of the active memtable readable until its SSTable
+        # is installed (Memtable.flush() below clears the buffer itself).
         old_memtable = self._memtable
-        self._immutable_memtables.append(old_memtable)
+        frozen = Memtable(
+            f"{self.name}_immutable",
+            size_threshold=old_memtable._size_threshold,
+        )
+        frozen._data = dict(old_memtable._data)
+        self._immutable_memtables.append(frozen)
 
         # Create new active memtable
         self._memtable = Memtable(
@@ -521,7 +527,7 @@ class LSMTree(Entity):
         self._total_memtable_flushes += 1
 
         # Remove from immutable list
-        self._immutable_memtables.remove(old_memtable)
+        self._immutable_memtables.remove(frozen)
 
         # Truncate WAL
         if self._wal is not None:
